@@ -740,12 +740,18 @@ impl<'a, 't, 'g> VGen<'a, 't, 'g> {
                 }
             }
             // ... or the name of a variable that some OTHER declaration declares (scopes must not leak)
-            let foreign: Vec<String> = self
+            let mut foreign: Vec<String> = self
                 .local_pool
                 .iter()
                 .filter(|n| !self.cur_locals.iter().any(|x| x.eq_ignore_ascii_case(n)) && !self.cur_scope_names.iter().any(|x| x.eq_ignore_ascii_case(n)) && !self.globals.iter().any(|g| g.name.eq_ignore_ascii_case(n)))
                 .cloned()
                 .collect();
+            // ... or the name of a function / function block / program / type declared earlier: a
+            // declaration's name is no variable of another declaration
+            foreign.extend(self.funcs.iter().map(|f| f.name.clone()));
+            foreign.extend(self.fbs.iter().map(|f| f.name.clone()));
+            foreign.extend(self.progs.iter().cloned());
+            foreign.extend(self.enums.iter().map(|e| e.name.clone()));
             if !foreign.is_empty() && self.sites.iter().sum::<usize>() % 3 == 0 {
                 let f = self.t_free_pick(&foreign).clone();
                 self.set_marker(&f);
